@@ -10,14 +10,18 @@ package main
 import (
 	"fmt"
 	"go/ast"
+	"go/parser"
 	"go/token"
 	"go/types"
+	"os"
+	"strconv"
 	"strings"
 
 	"golang.org/x/tools/go/cfg"
 )
 
 type prover struct {
+	plain   bool // canonical strings without object pinning (reviewed-entry guards only)
 	info    *types.Info
 	vi      *varInfo
 	fg      *FGraph
@@ -28,6 +32,9 @@ type prover struct {
 type assignDesc struct {
 	kind string // define, assign, inc, dec, add, sub, range, other
 	rhs  ast.Expr
+	pos  token.Pos
+	rng  *ast.RangeStmt
+	def  bool
 }
 
 type term struct {
@@ -42,6 +49,9 @@ func (p *prover) canon(e ast.Expr) string {
 	e = ast.Unparen(e)
 	var sb strings.Builder
 	sb.WriteString(exprStr(e))
+	if p.plain {
+		return sb.String()
+	}
 	ast.Inspect(e, func(n ast.Node) bool {
 		if id, ok := n.(*ast.Ident); ok {
 			if o := p.info.Uses[id]; o != nil {
@@ -286,7 +296,15 @@ func (p *prover) notePost(d *dcs, e ast.Expr) {
 			return true
 		}
 		as := p.assigns[o]
+		if len(as) == 1 && as[0].kind == "rangekey" && as[0].def && as[0].rng != nil {
+			p.noteRangeKey(d, id, as[0])
+			return true
+		}
 		if len(as) != 1 || as[0].kind != "assign" || as[0].rhs == nil {
+			return true
+		}
+		if mk, ok := ast.Unparen(as[0].rhs).(*ast.CallExpr); ok && calleeName(p.info, mk) == "builtin.make" && len(mk.Args) >= 2 {
+			p.noteMake(d, id, mk, as[0].pos)
 			return true
 		}
 		call, ok := ast.Unparen(as[0].rhs).(*ast.CallExpr)
@@ -320,6 +338,9 @@ func (p *prover) notePost(d *dcs, e ast.Expr) {
 func (p *prover) lenCanon(x ast.Expr) string {
 	var sb strings.Builder
 	sb.WriteString("len(" + exprStr(ast.Unparen(x)) + ")")
+	if p.plain {
+		return sb.String()
+	}
 	// identifiers: 'len' is a builtin (not a Var) so only x's idents are pinned
 	ast.Inspect(x, func(n ast.Node) bool {
 		if id, ok := n.(*ast.Ident); ok {
@@ -426,7 +447,7 @@ func (p *prover) collectAssigns() {
 				case token.SUB_ASSIGN:
 					k = "sub"
 				}
-				p.assigns[o] = append(p.assigns[o], assignDesc{k, rhs})
+				p.assigns[o] = append(p.assigns[o], assignDesc{kind: k, rhs: rhs, pos: t.Pos(), def: t.Tok == token.DEFINE})
 			}
 		case *ast.IncDecStmt:
 			if o := obj(t.X); o != nil {
@@ -434,28 +455,28 @@ func (p *prover) collectAssigns() {
 				if t.Tok == token.DEC {
 					k = "dec"
 				}
-				p.assigns[o] = append(p.assigns[o], assignDesc{k, nil})
+				p.assigns[o] = append(p.assigns[o], assignDesc{kind: k, pos: t.Pos()})
 			}
 		case *ast.RangeStmt:
 			if t.Key != nil {
 				if o := obj(t.Key); o != nil {
-					p.assigns[o] = append(p.assigns[o], assignDesc{"rangekey", t.X})
+					p.assigns[o] = append(p.assigns[o], assignDesc{kind: "rangekey", rhs: t.X, pos: t.Pos(), rng: t, def: t.Tok == token.DEFINE})
 				}
 			}
 			if t.Value != nil {
 				if o := obj(t.Value); o != nil {
-					p.assigns[o] = append(p.assigns[o], assignDesc{"other", nil})
+					p.assigns[o] = append(p.assigns[o], assignDesc{kind: "other", pos: t.Pos()})
 				}
 			}
 		case *ast.ValueSpec:
 			for i, id := range t.Names {
 				if o := p.info.Defs[id]; o != nil {
 					if i < len(t.Values) && len(t.Values) == len(t.Names) {
-						p.assigns[o] = append(p.assigns[o], assignDesc{"assign", t.Values[i]})
+						p.assigns[o] = append(p.assigns[o], assignDesc{kind: "assign", rhs: t.Values[i], pos: t.Pos(), def: true})
 					} else if len(t.Values) == 0 {
-						p.assigns[o] = append(p.assigns[o], assignDesc{"zero", nil})
+						p.assigns[o] = append(p.assigns[o], assignDesc{kind: "zero", pos: t.Pos(), def: true})
 					} else {
-						p.assigns[o] = append(p.assigns[o], assignDesc{"other", nil})
+						p.assigns[o] = append(p.assigns[o], assignDesc{kind: "other", pos: t.Pos()})
 					}
 				}
 			}
@@ -580,11 +601,19 @@ func (p *prover) proveIndex(ix *ast.IndexExpr, facts []Fact) string {
 	} else {
 		L = p.lenTerm(ix.X)
 	}
+	if be, ok := ast.Unparen(ix.Index).(*ast.BinaryExpr); ok && be.Op == token.REM && p.nonNegExprDepth(be.X, 0) {
+		// x[e % len(x)] / x[e % N] with e >= 0
+		if n, isArr := arrayLen(tv.Type); isArr && n > 0 {
+			if c, isC := constInt(p.info, be.Y); isC && c > 0 && c <= n {
+				return fmt.Sprintf("modulo: non-negative value %% %d indexes an array of %d elements", c, n)
+			}
+		}
+	}
 	i := p.linear(ix.Index)
 	if !i.ok {
 		return ""
 	}
-	d := p.system(facts, ix.Index)
+	d := p.system(facts, ix.Index, ix.X)
 	d.add("", L.base, 0)
 	lower := d.le("", i.base, i.off) // 0 - i.base <= i.off  <=> i.base+i.off >= 0
 	upper := d.le(i.base, L.base, L.off-i.off-1)
@@ -620,7 +649,7 @@ func (p *prover) proveSlice(sx *ast.SliceExpr, facts []Fact) string {
 	} else {
 		L = p.lenTerm(sx.X)
 	}
-	d := p.system(facts, sx.Low, sx.High)
+	d := p.system(facts, sx.Low, sx.High, sx.X)
 	d.add("", L.base, 0)
 	lo := term{"", 0, true}
 	if sx.Low != nil {
@@ -1047,4 +1076,273 @@ func (p *prover) boundedCounterLoop(fs *ast.ForStmt) string {
 		}
 	}
 	return ""
+}
+
+// varsSettledBefore reports whether every local variable mentioned in e is
+// stable and all its assignments lie textually before pos, and e mentions no
+// fields, globals or calls other than len/cap.
+func (p *prover) varsSettledBefore(e ast.Expr, pos token.Pos) bool {
+	d := depsOf(p.info, p.vi, e)
+	if d.nonLocal {
+		return false
+	}
+	p.collectAssigns()
+	for _, l := range d.locals {
+		if !p.vi.stable[l] {
+			return false
+		}
+		for _, a := range p.assigns[l] {
+			if a.pos >= pos {
+				return false
+			}
+		}
+	}
+	return true
+}
+
+// noteMake: x := make([]T, L) with x never reassigned gives len(x) == L.
+func (p *prover) noteMake(d *dcs, x *ast.Ident, mk *ast.CallExpr, pos token.Pos) {
+	if tv, ok := p.info.Types[mk.Args[0]]; !ok || tv.Type == nil {
+		return
+	} else if _, isSlice := tv.Type.Underlying().(*types.Slice); !isSlice {
+		return
+	}
+	L := p.linear(mk.Args[1])
+	if !L.ok || !p.varsSettledBefore(mk.Args[1], pos) {
+		return
+	}
+	p.noteNonNeg(d, mk.Args[1])
+	lx := term{p.lenCanon(x), 0, true}
+	p.addRel(d, lx, L, token.EQL)
+}
+
+// noteRangeKey: `for i := range Y` (i declared by the statement and assigned
+// nowhere else) gives 0 <= i <= len(Y)-1 inside the loop, provided Y is not
+// re-bound in the loop body.
+func (p *prover) noteRangeKey(d *dcs, i *ast.Ident, a assignDesc) {
+	rs := a.rng
+	if !within(rs.Body, i.Pos()) {
+		return
+	}
+	tv, ok := p.info.Types[rs.X]
+	if !ok || tv.Type == nil {
+		return
+	}
+	iv := p.linear(i)
+	if !iv.ok {
+		return
+	}
+	switch tv.Type.Underlying().(type) {
+	case *types.Slice, *types.Array, *types.Pointer:
+	case *types.Basic:
+		if isIntegerType(tv.Type) {
+			// range over an integer n: 0 <= i < n
+			if p.varsSettledBefore(rs.X, rs.Pos()) {
+				n := p.linear(rs.X)
+				if n.ok {
+					d.add("", iv.base, 0)
+					p.addRel(d, iv, n, token.LSS)
+				}
+			}
+			return
+		}
+		if b := tv.Type.Underlying().(*types.Basic); b.Info()&types.IsString == 0 {
+			return
+		}
+	default:
+		return
+	}
+	// Y must denote the same value throughout the body
+	yText := exprStr(ast.Unparen(rs.X))
+	rebound := false
+	ast.Inspect(rs.Body, func(n ast.Node) bool {
+		switch t := n.(type) {
+		case *ast.AssignStmt:
+			for _, l := range t.Lhs {
+				lt := exprStr(ast.Unparen(l))
+				if lt == yText || strings.HasPrefix(yText, lt+".") {
+					rebound = true
+				}
+			}
+		}
+		return true
+	})
+	if rebound {
+		return
+	}
+	ok2 := true
+	ast.Inspect(rs.X, func(n ast.Node) bool {
+		switch t := n.(type) {
+		case *ast.CallExpr:
+			ok2 = false
+		case *ast.Ident:
+			if o, isVar := p.info.Uses[t].(*types.Var); isVar && !o.IsField() && o.Parent() != o.Pkg().Scope() {
+				if !p.vi.stable[o] {
+					ok2 = false
+				}
+				p.collectAssigns()
+				for _, as := range p.assigns[o] {
+					if within(rs.Body, as.pos) {
+						ok2 = false
+					}
+				}
+			}
+		}
+		return true
+	})
+	if !ok2 {
+		return
+	}
+	var L term
+	if n, isArr := arrayLen(tv.Type); isArr {
+		L = term{"", n, true}
+	} else {
+		L = term{p.lenCanon(rs.X), 0, true}
+	}
+	d.add("", iv.base, 0)
+	p.addRel(d, iv, L, token.LSS)
+}
+
+// proveAtLeast: e >= k follows from the facts.
+func (p *prover) proveAtLeast(e ast.Expr, facts []Fact, k int64) bool {
+	if c, ok := constInt(p.info, e); ok {
+		return c >= k
+	}
+	e = ast.Unparen(e)
+	// A - B >= k  <=>  B - A <= -k
+	if be, ok := e.(*ast.BinaryExpr); ok && be.Op == token.SUB {
+		a, b := p.linear(be.X), p.linear(be.Y)
+		if a.ok && b.ok {
+			d := p.system(facts, be.X, be.Y)
+			return d.le(b.base, a.base, a.off-b.off-k)
+		}
+	}
+	t := p.linear(e)
+	if !t.ok {
+		return false
+	}
+	d := p.system(facts, e)
+	return d.le("", t.base, t.off-k)
+}
+
+// holdsText decides a guard relation given as source text against the facts:
+// "a < b" style comparisons through the difference-constraint system over
+// plain expression texts, "f(x)" / "!f(x)" as boolean facts.
+func (p *prover) holdsText(rel string, facts []Fact) bool {
+	if os.Getenv("RARECHECK_DEBUG_NEEDS") != "" {
+		fmt.Fprintf(os.Stderr, "needs %q facts:", rel)
+		for _, f := range facts {
+			fmt.Fprintf(os.Stderr, " [%s=%v]", exprStr(f.Cond), f.Truth)
+		}
+		fmt.Fprintln(os.Stderr)
+	}
+	if strings.HasPrefix(rel, "fact:") {
+		txt := strings.TrimPrefix(rel, "fact:")
+		want := true
+		if strings.HasPrefix(txt, "!") {
+			want, txt = false, txt[1:]
+		}
+		for _, f := range facts {
+			if f.Tag == nil && exprStr(ast.Unparen(f.Cond)) == txt && f.Truth == want {
+				return true
+			}
+		}
+		return false
+	}
+	e, err := parser.ParseExpr(rel)
+	if err != nil {
+		return false
+	}
+	q := &prover{plain: true, info: p.info, vi: p.vi, fg: p.fg, body: p.body}
+	lin := func(x ast.Expr) term {
+		x = ast.Unparen(x)
+		off := int64(0)
+		for {
+			be, ok := x.(*ast.BinaryExpr)
+			if !ok || (be.Op != token.ADD && be.Op != token.SUB) {
+				break
+			}
+			lit, ok := be.Y.(*ast.BasicLit)
+			if !ok || lit.Kind != token.INT {
+				break
+			}
+			v, _ := strconv.ParseInt(lit.Value, 0, 64)
+			if be.Op == token.ADD {
+				off += v
+			} else {
+				off -= v
+			}
+			x = ast.Unparen(be.X)
+		}
+		if lit, ok := x.(*ast.BasicLit); ok && lit.Kind == token.INT {
+			v, _ := strconv.ParseInt(lit.Value, 0, 64)
+			return term{"", off + v, true}
+		}
+		return term{exprStr(x), off, true}
+	}
+	if be, ok := e.(*ast.BinaryExpr); ok {
+		switch be.Op {
+		case token.LSS, token.LEQ, token.GTR, token.GEQ, token.EQL, token.NEQ:
+			d := q.system(facts)
+			a, b := lin(be.X), lin(be.Y)
+			// non-negativity of len(..) terms
+			for _, t := range []term{a, b} {
+				if strings.HasPrefix(t.base, "len(") {
+					d.add("", t.base, 0)
+				}
+			}
+			switch be.Op {
+			case token.LSS:
+				return d.le(a.base, b.base, b.off-a.off-1)
+			case token.LEQ:
+				return d.le(a.base, b.base, b.off-a.off)
+			case token.GTR:
+				return d.le(b.base, a.base, a.off-b.off-1)
+			case token.GEQ:
+				return d.le(b.base, a.base, a.off-b.off)
+			case token.EQL:
+				return d.le(a.base, b.base, b.off-a.off) && d.le(b.base, a.base, a.off-b.off)
+			case token.NEQ:
+				if d.le(a.base, b.base, b.off-a.off-1) || d.le(b.base, a.base, a.off-b.off-1) {
+					return true
+				}
+				for _, f := range facts {
+					if fe, ok := ast.Unparen(f.Cond).(*ast.BinaryExpr); ok && f.Tag == nil {
+						if (fe.Op == token.NEQ && f.Truth) || (fe.Op == token.EQL && !f.Truth) {
+							x, y := exprStr(fe.X), exprStr(fe.Y)
+							if (x == exprStr(be.X) && y == exprStr(be.Y)) || (x == exprStr(be.Y) && y == exprStr(be.X)) {
+								return true
+							}
+						}
+					}
+				}
+				return false
+			}
+		}
+	}
+	// literal fact text: "fact:<expr>" / "fact:!<expr>"
+	// boolean fact
+	want := true
+	if ue, ok := e.(*ast.UnaryExpr); ok && ue.Op == token.NOT {
+		want = false
+		e = ue.X
+	}
+	txt := exprStr(e)
+	for _, f := range facts {
+		if f.Tag != nil {
+			continue
+		}
+		c, truth := ast.Unparen(f.Cond), f.Truth
+		for {
+			ue, ok := c.(*ast.UnaryExpr)
+			if !ok || ue.Op != token.NOT {
+				break
+			}
+			c, truth = ast.Unparen(ue.X), !truth
+		}
+		if exprStr(c) == txt && truth == want {
+			return true
+		}
+	}
+	return false
 }
